@@ -287,10 +287,10 @@ pub fn run(run: &Run) {
     run.assume("call multiplicity of arguments behind short-circuit logic or in non-mapped positions of a map-each call is not fixed by the property and is compared as a set");
     let subs = subs();
     run_regressions(run, &subs);
-    let n = run.tier.pick(400_000, 6_000_000);
+    let n = run.tier.pick(400_000, 12_000_000);
     run.random("filters", n, 300, &*find_sub(&subs, "filters").unwrap().f);
-    let n = run.tier.pick(200_000, 3_000_000);
+    let n = run.tier.pick(200_000, 6_000_000);
     run.random("values", n, 150, &*find_sub(&subs, "values").unwrap().f);
-    let n = run.tier.pick(30_000, 300_000);
+    let n = run.tier.pick(30_000, 1_000_000);
     run.random("ctxfn", n, 150, &*find_sub(&subs, "ctxfn").unwrap().f);
 }
